@@ -16,7 +16,12 @@ import (
 type c11Case struct {
 	Spec   objSpec `json:"spec"`
 	Parsed bool    `json:"via_parse"` // build through JSON() -> Parse instead of using the constructed object
+	// BBox > 0 (with Parsed): the text gets a "bbox" member that says something else than the positions do.
+	// It is a foreign member: the box, the centre and the validity are functions of the positions alone.
+	BBox int `json:"bbox,omitempty"`
 }
+
+var c11BBoxes = []string{`[-1000,-1000,1000,1000]`, `[5,5,6,6]`, `[0,0,0,0]`, `[1,2,3,4,5,6]`, `[179,89,181,91]`, `[7,7,3,3]`}
 
 // positions of the non-empty parts, and whether the object is empty by the statement's rule
 func (s *objSpec) modelPositions() (pts []fpt, empty bool) {
@@ -69,7 +74,11 @@ func c11Check(c c11Case) fw.Outcome {
 	label := c.Spec.Kind
 	if c.Parsed {
 		// the representation options may change the concrete type, never the box, centre, validity or emptiness
-		o2, err := geojson.Parse(obj.JSON(), &geojson.ParseOptions{IndexChildren: 2, IndexGeometry: 4, IndexGeometryKind: geometry.RTree,
+		text := obj.JSON()
+		if c.BBox > 0 && len(text) > 2 {
+			text = `{"bbox":` + c11BBoxes[(c.BBox-1)%len(c11BBoxes)] + `,` + text[1:]
+		}
+		o2, err := geojson.Parse(text, &geojson.ParseOptions{IndexChildren: 2, IndexGeometry: 4, IndexGeometryKind: geometry.RTree,
 			AllowSimplePoints: c.Spec.Kind != "Feature", AllowRects: true})
 		if err != nil {
 			return fw.Outcome{Label: label + "/not-parseable", Skip: true} // e.g. rings shorter than 4 positions
@@ -249,7 +258,11 @@ func genFiniteSpec(t *rapid.T, depth int) objSpec {
 }
 
 func c11Gen(t *rapid.T) c11Case {
-	return c11Case{Spec: genFiniteSpec(t, 3), Parsed: rapid.IntRange(0, 2).Draw(t, "parsed") == 0}
+	c := c11Case{Spec: genFiniteSpec(t, 3), Parsed: rapid.IntRange(0, 2).Draw(t, "parsed") == 0}
+	if c.Parsed && rapid.IntRange(0, 2).Draw(t, "bbox_m") == 0 {
+		c.BBox = rapid.IntRange(1, len(c11BBoxes)).Draw(t, "bbox")
+	}
+	return c
 }
 
 // segment and rect level (geometry package)
